@@ -16,7 +16,8 @@ IN_TYPE = "(C13_aux * %s)" % PARSE_IN
 VERDICT = "fun i o => parse_verdict cfg (snd i) o"
 SPEC = "fun i o => C13_spec (fst i) o"
 
-BAD_BODIES = [["  0 = N 0 0", "  0 = N 5 0"], ["garbage", "  x"], ["  10 = N 0 0", "  5 = S 2 1", "  1 = S 2 1"], ["  99999999 = N 0 0"]]
+BAD_BODIES = [["  0 = N 0 0", "  }", "  10 = N 1 0"], ["} ", "  0 = N 0 0"], ["\t{", "  0 = N 0 0"], ["  {", "  5 = N 2 0", "  }"],
+              ["  0 = N 0 0", "  0 = N 5 0"], ["garbage", "  x"], ["  10 = N 0 0", "  5 = S 2 1", "  1 = S 2 1"], ["  99999999 = N 0 0"]]
 
 
 def key_of_header(h):
